@@ -1122,6 +1122,18 @@ def _genband_unit(unit_name):
 
 
 EXTRACTORS["C02"] = EXTRACTORS["C02"] + [_genband_unit("SrcBand")]
+# genleft: leftovers of the earlier translation builders — tools/rs2lean_genleft.py (dialect "px": expression-bodied
+# functions; units of genio's sub-dialect "io"); docs/notes/GEN.md, section "genleft"
+TRANSLATOR_MODULES.append("rs2lean_genleft")
+GEN_SRC.update({n: gen_src(n) for n in ("SrcSbRankOrd",)})
+EXTRACTORS["C17"] = EXTRACTORS["C17"] + [GEN_SRC["SrcSbRankOrd"]]
+GEN_SRC.update({n: gen_src(n) for n in ("SrcOrfNew",)})
+EXTRACTORS["C20"] = EXTRACTORS["C20"] + [GEN_SRC["SrcOrfNew"]]
+GEN_SRC.update({n: gen_src(n) for n in ("SrcIdxFaIter",)})
+EXTRACTORS["C12"] = EXTRACTORS["C12"] + [GEN_SRC["SrcIdxFaIter"]]
+GEN_SRC.update({n: gen_src(n) for n in ("SrcFmAccess",)})
+EXTRACTORS["C06"] = EXTRACTORS["C06"] + [GEN_SRC["SrcOcc"], GEN_SRC["SrcPrescan"], GEN_SRC["SrcLess"], GEN_SRC["SrcFmAccess"]]
+EXTRACTORS["C05"] = EXTRACTORS["C05"] + [GEN_SRC["SrcFmAccess"]]
 
 
 def main():
